@@ -100,6 +100,13 @@ def text_side(fails):
     rng = random.Random(int(os.environ.get("VERIF_SEED", "20261001")) + 13)
     tier = os.environ.get("VERIF_TIER", "quick")
     tcs = [c for c in C13.gen(rng, "quick") if c["family"] in ("text", "f-leading-digit", "f-below-position", "format")][:1500 if tier == "quick" else 3000]
+    from . import C12
+    pcs = [c for c in C12.gen(rng, "quick") if c["family"] in ("binary-representable", "rounding-directed", "exponent-boundary", "scan", "inf")][:1200]
+    for c in pcs:
+        if rng.random() < 0.5 and c["vars"]:
+            c["vars"][0].prec = 0 if c["vars"][0].form != 1 else c["vars"][0].prec
+    npc = len(tcs)
+    tcs += pcs
     # operands with low zero words (values shorter than their precision)
     for c in tcs:
         for v in c["vars"]:
@@ -125,7 +132,19 @@ def text_side(fails):
         except Exception:
             continue
         c = byid.get(key[0])
-        if c is None or key[0] in bad or opn in ("Parse", "Scan", "SetString", "UnmarshalText", "RoundTrip"):
+        if c is None or key[0] in bad:
+            continue
+        if opn in ("Parse", "SetString") and key[1] == 0 and outcome == "ok" and len(res) >= 2 and res[1] == "0" and vs:
+            z0 = C01.dv_obs(c["vars"][0])
+            z1 = vs[0]
+            JUDGE_STATS["text_attr_rules_checked"] = JUDGE_STATS.get("text_attr_rules_checked", 0) + 1
+            wantp = int(z0[2]) if int(z0[2]) else 34
+            if int(z1[2]) != wantp or z1[3] != z0[3]:
+                bad.add(key[0])
+                fails.append((c, "attribute rule violated (%s; text driver build/tdriver): receiver precision/mode %s/%s, documented %d/%s" % (opn, z1[2], z1[3], wantp, z0[3]),
+                              dict(implementation=line[:1500], step=key[1], driver="tdriver")))
+            continue
+        if opn in ("Parse", "Scan", "SetString", "UnmarshalText", "RoundTrip", "BigParse", "ParseDecimal", "Fscan", "JSON"):
             continue
         prev = [C01.dv_obs(v) for v in c["vars"]]
         if len(vs) != len(prev):
